@@ -69,8 +69,12 @@ def run(ctx):
                     if budget:
                         acts = acts + [{"a": "tick", "d": "c2s", "k": 0}] + [{"a": "deliver", "d": d, "k": 0} for _ in range(6) for d in ("c2s", "s2c")]
                     jobs.append({"mode": "udp", "p": pp, "acts": acts})
+                    if len(jobs) % 2 == 0:
+                        # the one-way style: the client application hands the request to WriteMessage; the answer reaches its handler
+                        jobs.append({"mode": "udp", "p": dict(pp, ow=True), "acts": acts})
                 if budget == 0:
                     jobs.append({"mode": "tcp", "p": pp, "acts": []})
+                    jobs.append({"mode": "tcp", "p": dict(pp, ow=True), "acts": []})
                     jobs.append({"mode": "tcpconc", "p": pp, "acts": []})       # three exchanges at the same time
                     jobs.append({"mode": "tcpconcz", "p": pp, "acts": []})      # ... whose tokens differ only in leading zero bytes
                     # the library's own server and client over loopback sockets, configured through the public options: every
@@ -216,6 +220,7 @@ def run(ctx):
     ctx.add("traces_validated_against_impl", len(traces))
     ctx.cov["scenarios"] = nscen
     ctx.cov["schedules_by_mode"] = {m: sum(1 for j in jobs if j["mode"] == m) for m in ("layer", "layerc", "udp", "tcp", "tcpconc", "tcpconcz", "obsbw", "mix", "sock-udp", "sock-dtls", "sock-tcp", "sock-tls")}
+    ctx.cov["schedules_one_way_style"] = sum(1 for j in jobs if j.get("p", {}).get("ow"))
     obsrecs = [t for t in traces if t["op"] == "obsbw"]
     ctx.cov["observer_deliveries"] = sum(len(t["notes"]) for t in obsrecs)
     single = [t for t in traces if t["op"] not in ("conc", "obsbw", "mix")]
